@@ -132,6 +132,23 @@ class ConfigurationDict(UserDict):
         for key in F:
             self.__setitem__(key, F[key])
 
+    def __ior__(self, other):
+        # `UserDict.__ior__` writes to `self.data` (no verification)
+        self.update(other)
+        return self
+
+    def __or__(self, other):
+        new = self.__class__(section=self.section)
+        new.update(self.data)
+        new.update(other)
+        return new
+
+    def __ror__(self, other):
+        new = self.__class__(section=self.section)
+        new.update(other)
+        new.update(self.data)
+        return new
+
 
 class Configuration(object):
     def __init__(self, files=None, cfg=None, disable_checks=False):
@@ -208,8 +225,17 @@ class Configuration(object):
                 rep += "   {}: {}\n".format(subkey, self[key][subkey])
         return rep
 
-    def __setitem__(self, *args):
-        self._cfg.__setitem__(*args)
+    def __setitem__(self, sec, items):
+        """Replace the section `sec` with the entries of `items`
+
+        The entries are verified and converted exactly as in
+        `cfg[sec][key] = value`.
+        """
+        sec = ConfigurationDict._k(sec)
+        section = None if self.disable_checks else sec
+        cdict = ConfigurationDict(section=section)
+        cdict.update(items)
+        self._cfg[sec] = cdict
 
     def _init_default_filter_values(self):
         """Set default initial values
